@@ -72,10 +72,12 @@ func canonicalStructSize(s Struct) ObjectSize {
 		return ObjectSize{}
 	}
 	var sz ObjectSize
-	// int32 will not overflow because max struct data size is 2^16 words.
-	for off := int32(s.size.DataSize &^ (wordSize - 1)); off >= 0; off -= int32(wordSize) {
-		if s.Uint64(DataOffset(off)) != 0 {
-			sz.DataSize = Size(off) + wordSize
+	// The data section of a list element viewed as a struct may be
+	// shorter than a word, so look at bytes and round up to whole words.
+	data := s.seg.slice(s.off, s.size.DataSize)
+	for i := len(data) - 1; i >= 0; i-- {
+		if data[i] != 0 {
+			sz.DataSize = (Size(i) + wordSize) &^ (wordSize - 1)
 			break
 		}
 	}
